@@ -1,6 +1,8 @@
 import SoxrModel.Properties.C03
 import SoxrModel.Properties.C15
 import SoxrModel.Phase.Bridge
+import SoxrModel.Phase.CrBridge
+import SoxrModel.Cr.TimeLemmas
 import SoxrModel.Phase.Generated
 /-!
 # C14 The phase setting changes phase only
@@ -23,6 +25,11 @@ index structure, `cr.c:dft_stage_init` arithmetic; `Cr/Model.lean` — the count
   `linear_block_aligned`).  `f1_historical_misaligned` keeps the witness of the finding: the arithmetic *without* the padding
   step (`dftStageInitPreF1`) on the plan the planner exported for HQ 1→128 phase 0 violates the clause, the code as it is
   does not.  `fd_rate_exact_iff` says what the clause buys: the stage's rate is exactly `L` iff it holds.
+
+* **the stage meets the hypotheses of the constant-rate theorems** (`dft_stage_init_gives_wf_stage`, `…_pow2_sizes`,
+  `…_latency`, `…_linear_time_aligned`, `…_linear_early_ok`; `Phase/CrBridge.lean`): the dft clause of `StageWF`, `DftShapeOK`,
+  `LatOK`, `EarlyOK` are derived from the model of `dft_stage_init` instead of being evaluated per exported plan; what
+  remains hypothesis is listed there (facts about `set_dft_length`, the sizes of `L`, `M`, the planner's call sites).
 
 What Lean does not carry: that the cepstral transform leaves `|H|` unchanged (floating point; measured by the falsifier),
 and the end-to-end mirror / symmetry of the multi-stage response (measured).  `Goal_magnitude_preserved` is stated, not claimed.
@@ -323,33 +330,8 @@ example : FDomainOK (dftStageInit exSmall) ∧ (dftStageInit exSmall).numTaps % 
 theorem block_aligned_all_phases (i : DftIn) (hp : isPow2L i.L = true) (b : Nat) (hD : i.dftLen = 2 ^ b)
     (hlin : i.lin = true → i.fnEqL = true ∨ i.L ∣ 4) (hnl : i.lin = false → 1 ≤ i.tpLen) :
     FDomainOK (dftStageInit i) ∧ i.L ∣ (dftStageInit i).blockLen ∧ i.L ∣ (dftStageInit i).numTaps - 1 ∧
-    32 * i.L ≤ (dftStageInit i).dftLen := by
-  obtain ⟨a, _, ha⟩ := isPow2L_spec i.L hp
-  have hge : 32 * i.L ≤ finalDftLen i.L i.dftLen :=
-    finalDftLen_ge i.L i.dftLen hp (by rw [hD]; exact Nat.pow_pos (by omega))
-  obtain ⟨c, hc⟩ := finalDftLen_pow2 i.L b
-  rw [← hD] at hc
-  have hdvdD : i.L ∣ finalDftLen i.L i.dftLen := by
-    rw [hc]
-    have : i.L ≤ 2 ^ c := by rw [← hc]; omega
-    rw [ha] at this ⊢
-    exact pow2_dvd_of_le a c this
-  have htaps : i.L ∣ (dftStageInit i).numTaps - 1 := by
-    cases hl : i.lin
-    · rw [(dft_nonlin i hl).1]; exact tapPad_dvd i.L i.tpLen hp (hnl hl)
-    · rw [(dft_lin_numTaps i hl).1]
-      have hk : i.L ∣ designK true i.L i.fnEqL := by
-        unfold designK
-        rcases hlin hl with hf | h4
-        · simp [hp, hf]
-        · split
-          · exact ⟨2, by omega⟩
-          · exact h4
-      have hm := roundTaps_mod i.nRaw (designK true i.L i.fnEqL)
-      exact Nat.dvd_trans hk (Nat.dvd_of_mod_eq_zero hm)
-  have hbl : i.L ∣ (dftStageInit i).blockLen := by
-    rw [dft_blockLen, dft_dftLen]; exact Nat.dvd_sub hdvdD htaps
-  exact ⟨fun _ => by rw [dft_L]; exact hbl, hbl, htaps, by rw [dft_dftLen]; exact hge⟩
+    32 * i.L ≤ (dftStageInit i).dftLen :=
+  dft_block_aligned i hp b hD hlin hnl
 
 example : FDomainOK (dftStageInit exMin) ∧ (dftStageInit exMin).numTaps = 385 ∧ (dftStageInit exMin).padTaps = 4 ∧
     (dftStageInit exMin).blockLen = 1664 := by decide
@@ -371,6 +353,111 @@ theorem fdomain_rate_exact_iff (L bl clk : Nat) (hL : 0 < L) (hc : clk < L) : L 
   fd_rate_exact_iff L bl clk hL hc
 
 example : 32 * fdQuot 32 1668 1 = 1696 ∧ 32 * fdQuot 32 1664 0 = 1664 := by decide
+
+/-! ## (f) the stage `dft_stage_init` leaves meets the hypotheses of the constant-rate theorems (`Phase/CrBridge.lean`) -/
+
+/-- **`dft_stage_init` gives a well-formed, well-shaped stage.**  The exported stage (`lstageOf`: `kind = dft`, `L`, `dftLen`,
+    `numTaps`, `M = step.integer`, `clk = at.integer`, `remM = 0`, `occ = preload`, `isz = input_size`, as `harness/cr/trace.c`
+    prints it) satisfies the whole dft clause of `StageWF` and the whole of `DftShapeOK` — what `never_early`,
+    `delay_gt_neg_one_every_run`, `dft_inv` and the schedule theorems assume of a dft stage — for every phase response,
+    every `L` (power-of-two `L ≥ 8` included), `step = M` and the F-domain decimator alike.  Hypotheses: facts about the
+    parts the model does not compute — `hT` the transform's length is `≡ 1 (mod 4)` (a theorem of the selection-step model:
+    `transformed_length_mod4`), `hD`/`hN` `set_dft_length` answers a power of two not below `num_taps` (floating-point `log`),
+    `hB` `L`, `M` do not exceed the block (for power-of-two `L`: `dft_stage_init_pow2_sizes`), `hlin` the planner's call
+    sites for linear phase. -/
+theorem dft_stage_init_gives_wf_stage (i : DftIn) (hL : 0 < i.L) (hM : 0 < i.M)
+    (hT : i.lin = false → i.tpLen % 4 = 1)
+    (b : Nat) (hD : i.dftLen = 2 ^ b) (hN : (dftStageInit i).numTaps ≤ i.dftLen)
+    (hB : i.L ≤ (dftStageInit i).blockLen ∧ i.M ≤ (dftStageInit i).blockLen)
+    (hlin : i.lin = true → isPow2L i.L = true → i.fnEqL = true ∨ i.L ∣ 4) :
+    StageWF (lstageOf (dftStageInit i)).cfg (lstageOf (dftStageInit i)).s0 ∧
+    DftShapeOK (lstageOf (dftStageInit i)).cfg (lstageOf (dftStageInit i)).s0 :=
+  stage_init_wf_shape i hL hM hT b hD hN hB hlin
+
+/-- the former F1 stage (minimum phase, `L = 32`), its linear-phase twin, and an F-domain decimator by 2 -/
+example : StageWF (lstageOf (dftStageInit exMin)).cfg (lstageOf (dftStageInit exMin)).s0 ∧
+    DftShapeOK (lstageOf (dftStageInit exMin)).cfg (lstageOf (dftStageInit exMin)).s0 :=
+  dft_stage_init_gives_wf_stage exMin (by decide) (by decide) (by decide) 11 (by decide) (by decide) (by decide) (by decide)
+example : StageWF (lstageOf (dftStageInit exLin)).cfg (lstageOf (dftStageInit exLin)).s0 ∧
+    DftShapeOK (lstageOf (dftStageInit exLin)).cfg (lstageOf (dftStageInit exLin)).s0 :=
+  dft_stage_init_gives_wf_stage exLin (by decide) (by decide) (by decide) 11 (by decide) (by decide) (by decide) (by decide)
+def exDown : DftIn := { lin := false, L := 1, M := 2, fnEqL := false, fsLe1 := true, nRaw := 800, tpLen := 801, tpPost := 700, dftLen := 4096 }
+example : (dftStageInit exDown).step = -1 ∧ StageWF (lstageOf (dftStageInit exDown)).cfg (lstageOf (dftStageInit exDown)).s0 ∧
+    DftShapeOK (lstageOf (dftStageInit exDown)).cfg (lstageOf (dftStageInit exDown)).s0 :=
+  ⟨by decide, dft_stage_init_gives_wf_stage exDown (by decide) (by decide) (by decide) 12 (by decide) (by decide) (by decide) (by decide)⟩
+
+/-- **For a power-of-two `L` the size hypotheses reduce to one numeric fact about `set_dft_length`**
+    (`3·n ≤ 2·set_dft_length(n)`; the C expression `1 << (int)(log2 n + 1.77)` is at least `2^0.77·n`): then
+    `num_taps ≤ dft_length` and, by the padding loop, the block is more than ten times `L`. -/
+theorem dft_stage_init_pow2_sizes (i : DftIn) (hp : isPow2L i.L = true) (hS : 3 * (dftStageInit i).numTaps ≤ 2 * i.dftLen)
+    (hD1 : 1 ≤ i.dftLen) : (dftStageInit i).numTaps ≤ i.dftLen ∧ 10 * i.L < (dftStageInit i).blockLen :=
+  pow2_sizes i hp hS hD1
+
+example : 3 * (dftStageInit exMin).numTaps ≤ 2 * exMin.dftLen ∧ isPow2L exMin.L = true := by decide
+
+/-- the C macro and the model's power-of-two test agree where it matters: what `dft_stage_fn` treats as a frequency-domain
+    up-sampler (`lsx_is_power_of_2(L)`, bitwise) is a power of two -/
+theorem isPow2_macro_is_pow2 (x : Nat) (h : isPow2 x = true) : isPow2L x = true ∧ ∃ a, 1 ≤ a ∧ x = 2 ^ a :=
+  ⟨isPow2L_of_isPow2 x h, isPow2_spec x h⟩
+
+example : isPow2 64 = true := by decide
+
+/-- **Latency, every phase**: the exported integers satisfy `preload = post_peak / L`, `at = post_peak % L`,
+    `post_peak = L·preload + at`, `at < L` — `post_peak` including the trailing zeros of the F1 repair. -/
+theorem dft_stage_init_latency (i : DftIn) (hL : 0 < i.L) :
+    let x := lstageOf (dftStageInit i)
+    x.s0.occ = x.lat.postPeak / x.cfg.L ∧ x.s0.clk = x.lat.postPeak % x.cfg.L ∧
+    x.lat.postPeak = x.cfg.L * x.s0.occ + x.s0.clk ∧ x.s0.clk < x.cfg.L :=
+  lstage_latency i hL
+
+/-- **Linear phase is time-aligned**: `LatOK` holds (the hypothesis of `dft_b` / `tstage_b_exact`), so output frame `j` of the
+    stage represents instant `(M/L)·j` of its input exactly: `(tstage x).b = 0`. -/
+theorem dft_stage_init_linear_time_aligned (i : DftIn) (hL : 0 < i.L) (hl : i.lin = true) :
+    LatOK true (lstageOf (dftStageInit i)) ∧ LatOK false (lstageOf (dftStageInit i)) ∧
+    (tstage (lstageOf (dftStageInit i))).b = 0 :=
+  ⟨lstage_latOK_linear i hL hl true, lstage_latOK_linear i hL hl false,
+   dft_b _ rfl true (lstage_latOK_linear i hL hl true)⟩
+
+example : exLin.lin = true ∧ 0 < exLin.L := by decide
+
+/-- **`EarlyOK` for a linear-phase power-of-two up-sampler** (with the two theorems above: every per-stage hypothesis of
+    `never_early` for such a stage): the peak is at least `L − 1` taps in as soon as the Kaiser estimate asks for two taps. -/
+theorem dft_stage_init_linear_early_ok (i : DftIn) (hl : i.lin = true) (hp : isPow2L i.L = true) (hf : i.fnEqL = true)
+    (hn : 2 ≤ i.nRaw) (hM : 0 < i.M) (b : Nat) (hD : i.dftLen = 2 ^ b) (hN : (dftStageInit i).numTaps ≤ i.dftLen)
+    (hB : i.L ≤ (dftStageInit i).blockLen ∧ i.M ≤ (dftStageInit i).blockLen) :
+    EarlyOK (lstageOf (dftStageInit i)) := by
+  obtain ⟨a, _, ha⟩ := isPow2L_spec i.L hp
+  have hL : 0 < i.L := by rw [ha]; exact Nat.pow_pos (by omega)
+  have hs := (stage_init_wf_shape i hL hM (fun h => by rw [hl] at h; cases h) b hD hN hB (fun _ _ => Or.inl hf)).2
+  unfold EarlyOK
+  show i.L ≤ (dftStageInit i).postPeak + 1 ∧ _
+  exact ⟨lstage_peak_ge_L i hl hp hf hn, hs⟩
+
+example : EarlyOK (lstageOf (dftStageInit exLin)) :=
+  dft_stage_init_linear_early_ok exLin (by decide) (by decide) (by decide) (by decide) (by decide) 11 (by decide) (by decide) (by decide)
+
+/-- **End to end for the single-stage plan**: a resampler whose plan is the one linear-phase power-of-two up-sampling stage
+    `dft_stage_init` leaves (1→2, 1→4 with the small-integer optimisation …) is never early — `never_early` of C03 with every
+    per-stage hypothesis discharged from the model of `dft_stage_init`, for every kernel, history and input. -/
+theorem never_early_linear_dft_plan {α : Type} (K : Kern α) (z : α) (owed : Nat → Nat) (i : DftIn)
+    (hl : i.lin = true) (hp : isPow2L i.L = true) (hf : i.fnEqL = true)
+    (hn : 2 ≤ i.nRaw) (hM : 0 < i.M) (b : Nat) (hD : i.dftLen = 2 ^ b) (hN : (dftStageInit i).numTaps ≤ i.dftLen)
+    (hB : i.L ≤ (dftStageInit i).blockLen ∧ i.M ≤ (dftStageInit i).blockLen)
+    (ops : List (DOp α)) (F D : List α) (e : DEng α)
+    (r : DRuns K z owed (DEng.fresh z ([lstageOf (dftStageInit i)].map LStage.toPlan)) ops F D e) (hfl : e.fl = false) :
+    (1 ≤ D.length → ((D.length : ℚ) - 1) * rateOf ([lstageOf (dftStageInit i)].map tstage) < F.length) ∧
+    (0 < rateOf ([lstageOf (dftStageInit i)].map tstage) →
+      D.length ≤ ⌈(F.length : ℚ) / rateOf ([lstageOf (dftStageInit i)].map tstage)⌉₊) := by
+  obtain ⟨a, _, ha⟩ := isPow2L_spec i.L hp
+  have hL : 0 < i.L := by rw [ha]; exact Nat.pow_pos (by omega)
+  have hwf := (stage_init_wf_shape i hL hM (fun h => by rw [hl] at h; cases h) b hD hN hB (fun _ _ => Or.inl hf)).1
+  have he := dft_stage_init_linear_early_ok i hl hp hf hn hM b hD hN hB
+  have hlat := lstage_latOK_linear i hL hl false
+  exact C03.never_early K z owed [lstageOf (dftStageInit i)]
+    (fun x hx => by rw [List.mem_singleton] at hx; subst hx; exact hwf)
+    (fun x hx => by rw [List.mem_singleton] at hx; subst hx; exact he)
+    (fun x hx => by rw [List.mem_singleton] at hx; subst hx; exact hlat)
+    ops F D e r hfl
 
 /-! ## (e) generated constants of the working tree (`harness/phase/gen.c` → `Phase/Generated.lean`, regenerated on every run) -/
 
